@@ -7,6 +7,9 @@ case = {"level": 1|2|3, "method": str, "url": str, "headers": [[name, value], ..
 level 1: HTTPConnection("h.example", 80).request(method, url, headers=...)         (url used as given)
 level 2: HTTPConnectionPool("h.example", 80).urlopen(method, url, headers=...)      (url starts with "/")
 level 3: PoolManager().request(method, "http://h.example" + url, headers=...)
+level 4: HTTP2Connection("h.example", 443).putheader(name, value) with headers = [[name, value]]: [0, the name that was kept] or [1, 1]
+level 5: ProxyManager("http://proxy.example:3128", proxy_headers=headers).request("GET", url) with url = "https://" + thost [+ ":" + tport] + "/a":
+         what the proxy is made to read (it answers 403, so nothing but the CONNECT request is ever written)
 Observation: [0, the bytes written] or [1, error class] with nothing written (the oracle checks that)."""
 from __future__ import annotations
 
@@ -37,6 +40,9 @@ def ua():
 
 
 def encode(case):
+    if case["level"] == 4:
+        (n, v), = case["headers"]
+        return [4, S(n), S(v), [], S(ua())]
     return [case["level"], S(case["method"]), S(case["url"]), [[S(n), S(v)] for n, v in case["headers"]], S(ua())]
 
 
@@ -48,6 +54,12 @@ def describe(case):
 
 
 def in_model_domain(case):
+    if case["level"] == 5:
+        # the model has neither IDNA nor bracketed IPv6 literals, and takes proxy header names as distinct
+        h = case["thost"]
+        labels = h.split(".")
+        return (all(ord(c) < 128 for c in h) and "[" not in h and "]" not in h and all(1 <= len(l) <= 63 for l in labels[:-1]) and len(labels[-1]) <= 63
+                and len(h) > 0 and len({n.lower() for n, v in case["headers"]}) == len(case["headers"]))
     return not case.get("body") and not case.get("then")
 
 
@@ -76,7 +88,10 @@ def impl(case):
                 sent.extend(data)
                 if b"\r\n\r\n" in bytes(sent) and not getattr(peer, "answered", False):
                     peer.answered = True
-                    if case.get("body"):
+                    if case["level"] == 5:
+                        peer.send(http_response(403, "Forbidden", [("Connection", "close")], b""))
+                        peer.eof()
+                    elif case.get("body"):
                         peer.send(http_response(200, "OK", [], b"ok"))          # the body is still being written
                     else:
                         peer.send(http_response(200, "OK", [("Connection", "close")], b"ok"))
@@ -109,13 +124,29 @@ def impl(case):
                 c = HTTPConnection("h.example", 80)
                 c.request(case["method"], case["url"], headers=headers, **kw)
                 c.getresponse()
+            elif case["level"] == 4:
+                from urllib3.http2.connection import HTTP2Connection
+                c = HTTP2Connection("h.example", 443)
+                (name, value), = case["headers"]
+                c.putheader(name, value)
+                kept = list(c._headers)
+                _STASH[("h2", id(case))] = kept
+                out = [0, list(kept[-1][0]) if kept else []]
+            elif case["level"] == 5:
+                pm = urllib3.ProxyManager("http://proxy.example:3128", proxy_headers=headers)
+                try:
+                    pm.request("GET", case["url"], retries=False, redirect=False)
+                    problems.append("the request went on although the proxy refused the tunnel")
+                except urllib3.exceptions.ProxyError:
+                    pass
             elif case["level"] == 2:
                 p = HTTPConnectionPool("h.example", 80)
                 p.urlopen(case["method"], case["url"], headers=headers, retries=False, redirect=False, **kw)
             else:
                 pm = urllib3.PoolManager()
                 pm.request(case["method"], "http://h.example" + case["url"], headers=headers, retries=False, redirect=False, **kw)
-            out = [0, list(bytes(sent))]
+            if out is None:
+                out = [0, list(bytes(sent))]
         except http.client.InvalidURL:
             out = [1, 2]
         except UnicodeEncodeError:
@@ -199,6 +230,10 @@ def oracle(case, obs):
     problems, sent = _STASH.pop(id(case), ([], b""))
     if problems:
         return problems[0]
+    if case["level"] == 4:
+        return oracle_h2(case, obs, _STASH.pop(("h2", id(case)), []))
+    if case["level"] == 5:
+        return oracle_tunnel(case, obs, sent)
     if case.get("then"):
         # what the second call on the same connection object wrote must be that request and nothing else
         t = case["then"]
@@ -277,6 +312,61 @@ def oracle(case, obs):
     if hs != want:
         extra = [h for h in hs if h not in want]
         return "the header lines on the wire are not the requested ones (unexpected: %r)" % (extra[:2],)
+    return None
+
+
+H2_NAME_BYTES = b"!#$%&'*+-.^_`|~0123456789abcdefghijklmnopqrstuvwxyz"
+
+
+def oracle_h2(case, obs, kept):
+    """RFC 9113 8.2.1: a field name that is kept is a lower-case token, a value has no NUL/CR/LF and no SP/HTAB at either end"""
+    (name, value), = case["headers"]
+    if obs[0] != 0:
+        if kept:
+            return "putheader raised but kept %r" % (kept[:1],)
+        return None
+    if len(kept) != 1:
+        return "putheader kept %d fields for one name and one value" % len(kept)
+    n, v = kept[0]
+    if not n or any(b not in H2_NAME_BYTES for b in n):
+        return "HTTP/2 putheader kept the illegal field name %r" % n
+    if any(b in b"\x00\r\n" for b in v) or v[:1] in (b" ", b"\t") or v[-1:] in (b" ", b"\t"):
+        return "HTTP/2 putheader kept the illegal field value %r" % v
+    if n != name.encode("utf-8").lower() or v != value.encode("utf-8"):
+        return "HTTP/2 putheader kept (%r, %r), not the requested field" % (n, v)
+    return None
+
+
+DELIMS = set("/?#@:[]\\%")
+
+
+def oracle_tunnel(case, obs, sent):
+    """what the proxy read is exactly one CONNECT request for the requested host and port, with the caller's proxy headers and a Host line"""
+    if obs[0] != 0 or not sent:
+        return None
+    if not sent.endswith(b"\r\n\r\n") or sent.count(b"\r\n\r\n") != 1:
+        return "what the proxy reads is not one request head: %r" % sent[:160]
+    lines = sent[:-4].split(b"\r\n")
+    parts = lines[0].split(b" ")
+    if len(parts) != 3 or parts[0] != b"CONNECT" or parts[2] != b"HTTP/1.1" or any(b <= 0x20 or b == 0x7f for b in parts[1]):
+        return "the CONNECT request line is not 'CONNECT host:port HTTP/1.1': %r" % lines[0][:120]
+    h = case["thost"]
+    plain = all(ord(c) < 128 for c in h) and not (set(h) & DELIMS)
+    want_auth = ("%s:%d" % (h.lower(), case.get("tport") or 443)).encode("latin-1", "replace")
+    if plain and parts[1] != want_auth:
+        return "the CONNECT target is %r, requested %r" % (parts[1], want_auth)
+    try:
+        want = [n.encode("latin-1") + b": " + v.encode("latin-1") for n, v in case["headers"]]
+    except UnicodeEncodeError:
+        return "proxy headers that cannot be encoded were written"
+    if not any(n.lower() == "host" for n, v in case["headers"]):
+        want.append(b"Host: " + parts[1])
+    if lines[1:] != want:
+        extra = [l for l in lines[1:] if l not in want]
+        return "the header lines of the CONNECT request are not the requested proxy headers (unexpected: %r)" % (extra[:2],)
+    for n, v in case["headers"]:
+        if not n or any(c in n for c in " \t\r\n:\x00") or any(c in v for c in "\r\n\x00"):
+            return "a proxy header that is no header line was written: %r" % ((n, v),)
     return None
 
 
@@ -409,6 +499,40 @@ def cases(rng, tier):
                     out.append(c)
     for _ in range(8000 if tier == "quick" else 200000):
         out.append(one_case(rng))
+    # HTTP/2 header validity: every hostile string at every position of a name and of a value, then random ones
+    def h2case(n, v):
+        return {"level": 4, "method": "", "url": "", "headers": [[n, v]]}
+    for hst in HOSTILE + ["A", "Z", "\x80", "\xff", "~", "|", "(", ")", ",", ";", "=", "\"", "{", "@", "[", "/"]:
+        for base, field in (("x-foo", "name"), ("val", "value"), ("", "name"), ("", "value")):
+            for i in range(len(base) + 1):
+                t = base[:i] + hst + base[i:]
+                out.append(h2case(t, "val") if field == "name" else h2case("x-foo", t))
+    for n in NAMES + ["", "x_y", "X-FOO", ":path", "x-\u212a"]:
+        for v in VALUES + [" lead", "trail ", "\ttab", "tab\t", "mid dle", "\u00e9\n"]:
+            out.append(h2case(n, v))
+    for _ in range(1500 if tier == "quick" else 40000):
+        out.append(h2case(spice(rng, spice(rng, rng.choice(NAMES), 0.4), 0.2), spice(rng, spice(rng, rng.choice(VALUES), 0.4), 0.2)))
+    # the CONNECT request through a proxy: hostile text in the host of an https URL and in the proxy headers
+    def tcase(h, port, hs):
+        return {"level": 5, "method": "GET", "thost": h, "tport": port, "url": "https://" + h + (":%d" % port if port else "") + "/a", "headers": hs}
+    PH = [["Proxy-Authorization", "Basic dTpw"], ["X-P", "v"]]
+    for hst in HOSTILE:
+        for base in ("dest.example", "Dest.Example", "10.0.0.1"):
+            for i in range(len(base) + 1):
+                out.append(tcase(base[:i] + hst + base[i:], None, []))
+                out.append(tcase(base[:i] + hst + base[i:], 8443, [list(PH[0])]))
+        for base, field in (("X-P", "name"), ("v1", "value")):
+            for i in range(len(base) + 1):
+                t = base[:i] + hst + base[i:]
+                out.append(tcase("dest.example", None, [list(PH[0]), [t, "v1"] if field == "name" else ["X-P", t]]))
+    for hs in ([], [["Host", "other.example"]], [["host", "x"], ["X-P", "v"]], [["", "v"]], [["X-P", ""]], [["X-P", "\u00e9"]], [["X-P", "\u20ac"]], [["X-\u00e9", "v"]]):
+        out.append(tcase("dest.example", None, hs))
+        out.append(tcase("dest.example", 8443, hs))
+    for _ in range(1500 if tier == "quick" else 40000):
+        hs = []
+        for n in rng.sample(["Proxy-Authorization", "X-P", "Host", "User-Agent", "x-q"], rng.randint(0, 3)):
+            hs.append([spice(rng, n, 0.2), spice(rng, rng.choice(VALUES[:6] + ["Basic dTpw"]), 0.3)])
+        out.append(tcase(spice(rng, spice(rng, rng.choice(["dest.example", "Dest.Example", "a.b.c", "10.0.0.1", "x"]), 0.5), 0.2), rng.choice([None, None, 8443, 80]), hs))
     return out
 
 
